@@ -243,3 +243,57 @@ def prepared_managers(inp):
     finally:
         numpoly.set_options(**start)
     return None
+
+
+# ------------------------------------------------------------------ an unknown name among any number of valid ones
+def gen_reject_counts(tier, rng):
+    for k in range(0, 13):
+        for via in ("set_options", "global_options"):
+            for inside in (False, True):
+                for bad in ("no_such_option", "retain_name", "Sort_graded"):
+                    yield {"k": k, "via": via, "inside_block": inside, "bad": bad, "pick": rng.random()}
+
+
+@check("C14", "rejection.unknown_name_among_k_valid_ones", gen_reject_counts, functions=("numpoly.set_options", "numpoly.global_options"),
+       note="exhaustive: k = 0..12 valid options (k = 11 makes a call with as many keywords as there are options) plus ONE unknown name, "
+            "through set_options and global_options, at top level and inside an open block: KeyError, and no option - valid or not - is "
+            "changed or added")
+def reject_counts(inp):
+    import random
+    import numpoly
+    start = numpoly.get_options()
+    names = sorted(start)
+    rng = random.Random(inp["pick"])
+    valid = rng.sample(names, min(inp["k"], len(names)))
+    flip = lambda v: (not v) if isinstance(v, bool) else (v + "x")
+    kw = {n: flip(start[n]) for n in valid}
+    kw[inp["bad"]] = True
+
+    def attempt():
+        before = numpoly.get_options()
+        try:
+            if inp["via"] == "set_options":
+                numpoly.set_options(**kw)
+            else:
+                with numpoly.global_options(**kw):
+                    return f"global_options entered its block with the unknown option {inp['bad']!r} among {len(kw)} keywords"
+        except KeyError:
+            after = numpoly.get_options()
+            return None if after == before else f"{inp['via']} rejected {inp['bad']!r} but changed the options: {before} -> {after}"
+        return f"{inp['via']} accepted the unknown option {inp['bad']!r} among {len(kw)} keywords; options now {numpoly.get_options()}"
+    try:
+        if inp["inside_block"]:
+            with numpoly.global_options(retain_names=not start["retain_names"]):
+                r = attempt()
+        else:
+            r = attempt()
+        if r is None and numpoly.get_options() != start:
+            r = f"options after the rejected call (and the enclosing block): {numpoly.get_options()} != {start}"
+        return r
+    finally:
+        live = numpoly.get_options()
+        for key in list(live):
+            if key not in start:      # an unknown key that slipped in: remove it from the live dictionary for the next input
+                from numpoly import option as _o
+                _o._NUMPOLY_OPTIONS.pop(key, None)
+        numpoly.set_options(**start)
